@@ -17,6 +17,8 @@ FOCUS = {"UserAddEdge": "add_edge", "UserDeleteEdge": "del_edge", "UserDeleteNod
 def run_harness(script, args, timeout):
     env = dict(os.environ)
     env["PYTHONPATH"] = os.path.join(VERIF, "native")
+    if os.environ.get("PYVC_REPO_SRC"):  # scratch copy under test (self-tests of the machinery)
+        env["PYTHONPATH"] += os.pathsep + os.environ["PYVC_REPO_SRC"]
     try:
         p = subprocess.run([PY, os.path.join(VERIF, "native", script)] + args, capture_output=True, text=True,
                            timeout=timeout, env=env, cwd=VERIF)
